@@ -31,7 +31,11 @@ MATCHERS = {
     # "an integer number" (is a leading + part of it?)
     "integer": [r"-?[0-9]+", r"[+-]?[0-9]+"],
     # "a decimal floating point number" (sign +, `1.` and `.5` forms are open)
-    "number": [r"-?[0-9]+(?:\.[0-9]+)?", r"[+-]?(?:[0-9]+(?:\.[0-9]*)?|\.[0-9]+)"],
+    # third variant: the atomic (possessive) form that the library's own pattern file uses — the
+    # "corresponding regular expression" of a rule is built from the library's pattern definitions,
+    # so inputs on which atomicity matters are not judged (the variants disagree)
+    "number": [r"-?[0-9]+(?:\.[0-9]+)?", r"[+-]?(?:[0-9]+(?:\.[0-9]*)?|\.[0-9]+)",
+               r"[+-]?(?>[0-9]+(?:\.[0-9]*)?|\.[0-9]+)"],
     # "any string including spaces and newlines, equivalent to .*" (greedy or not is open)
     "data": [r".*?", r".*"],
     "greedyData": [r".*"],
